@@ -1,2 +1,3 @@
 -- Property files of work group D (import UF.Props.Cxx lines go here).
 import UF.Driver.Ops.GroupD
+import UF.Props.C11
